@@ -15,6 +15,9 @@ func zeroFact(t types.Type) Fact {
 	if b, ok := t.Underlying().(*types.Basic); ok && b.Info()&types.IsBoolean != 0 {
 		f.Bool = triNo
 	}
+	if b, ok := t.Underlying().(*types.Basic); ok && b.Info()&types.IsInteger != 0 {
+		f.Zero = true
+	}
 	return f
 }
 
@@ -279,6 +282,17 @@ func (x *Explorer) stepIf(st *State, v *ssa.If) bool {
 
 func (x *Explorer) stepBinOp(st *State, v *ssa.BinOp) {
 	f := Fact{}
+	if p, pos, ok := x.lenPosPattern(st, v); ok {
+		if cur := st.lenpos[vkey{st.depth(), p}]; cur != triUnk {
+			if (cur == triYes) == pos {
+				f.Bool = triYes
+			} else {
+				f.Bool = triNo
+			}
+			st.define(v, f)
+			return
+		}
+	}
 	switch v.Op {
 	case token.EQL, token.NEQ:
 		fx, fy := st.factOf(v.X), st.factOf(v.Y)
@@ -306,6 +320,9 @@ func (x *Explorer) stepBinOp(st *State, v *ssa.BinOp) {
 		}
 	case token.ADD:
 		f.Tags = (x.tagsOf(st, v.X) | x.tagsOf(st, v.Y)) & (TSchemaPath | TObjName)
+		if c, ok := v.Y.(*ssa.Const); ok && c.Value != nil && c.Value.String() == "1" && st.factOf(v.X).Neg1 {
+			f.Zero = true
+		}
 	}
 	st.define(v, f)
 }
@@ -422,6 +439,9 @@ func (x *Explorer) stepStore(st *State, v *ssa.Store) {
 	a := x.P.A
 	if al, ok := v.Addr.(*ssa.Alloc); ok && !al.Heap {
 		k := vkey{st.depth(), al}
+		if len(st.frames) == 1 && al.Comment != "" {
+			x.L.Event(x, st, &Event{Kind: EvStoreResult, Instr: v, VFact: st.factOf(v.Val)})
+		}
 		switch v.Val.(type) {
 		case *ssa.Const, *ssa.Global, *ssa.Function:
 			cs := Sym{d: st.depth(), i: 1, v: al}
@@ -464,7 +484,7 @@ func (x *Explorer) stepStore(st *State, v *ssa.Store) {
 				if isPointerLike(v.Val.Type()) && n != a.IndexedField {
 					x.L.Event(x, st, &Event{Kind: EvIdxContainerStore, Instr: v, Tags: bt, VTags: vt, Struct: n, Field: f})
 				}
-			case n == a.Async || (n == a.Schema && (f == a.SchCache || f == a.SchAsync)):
+			case (n == a.Async && f.Exported()) || (n == a.Schema && (f == a.SchCache || f == a.SchAsync)):
 				x.emit(st, &Event{Kind: EvEffect, Eff: ECfgW, Instr: v, Tags: bt, Struct: n, Field: f})
 			}
 		}
@@ -560,6 +580,9 @@ func (x *Explorer) stepLookup(st *State, v *ssa.Lookup) {
 			} else {
 				okf.OkTrue = effs(ETblHas)
 			}
+		}
+		if x.AssumeStorePresent && n == a.ObjectStore && f == a.StoreMap {
+			okf.Bool = triYes
 		}
 		st.facts[Sym{d: d, i: 1, v: v}] = vf
 		st.facts[Sym{d: d, i: 2, v: v}] = okf
